@@ -39,8 +39,8 @@ class TermReader:
         for tok in s.replace("(", " ").replace(")", " ").split():
             if tok not in ("Array", BOOL, INT, REAL):
                 self.sig.sorts.add(tok)
-    def read(self, obj):
-        key = obj["t"]
+    def read(self, obj, want=None):
+        key = (obj["t"], want)
         if key in self.cache:
             return self.cache[key]
         for nm, args, ret in obj["d"]:
@@ -49,7 +49,7 @@ class TermReader:
             self.sig.funs[nm] = (tuple(args), ret)
             self.decls[nm] = (tuple(args), ret)
         sx = read_all(obj["t"])
-        t = parse_term(sx[0], self.tb, self.sig, {}, None)
+        t = parse_term(sx[0], self.tb, self.sig, {}, want)
         self.cache[key] = t
         return t
     def decl_cmds(self):
